@@ -300,6 +300,16 @@ def observe(cfg, want):
         # (no assignment to .value in between: only the boundary data changed)
         P.solvePDE(v_h, terms_for(v_h, derive_gamma(xs2, interior(xs))))
         obs["r_history"] = lift_sol(np.asarray(v_h._value), xs2, "r_history")
+        # a call that raises while it assembles (a vector of the wrong size after valid terms), then the corrected
+        # call on the same variable: the failed attempt must leave nothing behind
+        v_r = P.CellVariable(c.m, old.copy(), bc_with(cfg, "c", c.m, d))
+        try:
+            P.solvePDE(v_r, terms_for(v_r, g1) + [np.ones(2)])
+            obs["flags"]["bad_term_rejected"] = False
+        except Exception:       # noqa: BLE001
+            obs["flags"]["bad_term_rejected"] = True
+        P.solvePDE(v_r, terms_for(v_r, g1))
+        obs["r_retry"] = lift_sol(np.asarray(v_r._value), xs, "r_retry")
         # multi-step history with a boundary-KIND switch: one side is made periodic, a step is taken, the side
         # is switched back (nothing else is touched), and the next step must be the step of the configured
         # (non-periodic) problem again: target x* from the state the first step left behind
